@@ -211,5 +211,5 @@ def body(ctx, case):
 
 
 UNITS = [
-    Unit("sorters", "given", body=body, strategy=strat, quick=1000, thorough=20000),
+    Unit("sorters", "given", body=body, strategy=strat, quick=3000, thorough=30000, shards_quick=8),
 ]
